@@ -538,6 +538,18 @@ impl Context {
             return (stream, true);
         }
         match (ident_ty, target) {
+            (
+                _,
+                CodegenTy::Adt(AdtDef {
+                    did: newtype_did,
+                    kind: AdtKind::NewType(inner),
+                }),
+            ) => {
+                // the target is a typedef: convert to the type it wraps and wrap the result
+                let name = self.cur_related_item_path(*newtype_did);
+                let (v, is_const) = self.ident_into_ty(did, ident_ty, inner);
+                (format!("{name}({v})").into(), is_const)
+            }
             (CodegenTy::Str, CodegenTy::FastStr) => {
                 let stream = self.cur_related_item_path(did);
                 (
